@@ -43,11 +43,21 @@ Mark(why) == Append(bad, [line |-> l + 1, why |-> why])
 \* else by unique op id, else "next"
 IndexOf(ln) ==
     IF Has(ln, "i") THEN ln.i
-    ELSE IF ~Has(ln, "op") THEN Len(tlog) + 1
-    ELSE LET js == {j \in 1..Len(tlog) : tlog[j].id = ln.op /\ ln.op # ""} IN
+    ELSE IF Has(ln, "op") THEN
+         LET js == {j \in 1..Len(tlog) : tlog[j].id = ln.op /\ ln.op # ""} IN
          IF js # {} THEN CHOOSE j \in js : TRUE ELSE Len(tlog) + 1
+    ELSE \* traces of the repository's own tests: no index, no op id. The entry continues the
+         \* replica's own position; after a restore whose index was ambiguous any position n with
+         \* ApplyPrefix(n-1) = the replica's state and the same entry at n (or n = next) explains it.
+         LET e == [k |-> ln.k, cid |-> ln.cid, v |-> IF ln.k = "pin" THEN (IF Has(ln, "want") THEN ln.want ELSE ln.v) ELSE NONE]
+             fits(n) == /\ PrefixOn(cs, tlog, n - 1) = real[ln.p]
+                        /\ (n <= Len(tlog) => tlog[n].k = e.k /\ tlog[n].cid = e.cid /\ tlog[n].v = e.v)
+             ns == {n \in 1..(Len(tlog) + 1) : fits(n)}
+         IN IF tap[ln.p] + 1 \in ns \/ ns = {} THEN tap[ln.p] + 1
+            ELSE CHOOSE n \in ns : \A m \in ns : n <= m
 
-Entry(ln) == [k |-> ln.k, cid |-> ln.cid, v |-> IF ln.k = "pin" THEN ln.v ELSE NONE,
+\* want = the value carried by the operation itself (when recorded): the statement says that is what is inserted
+Entry(ln) == [k |-> ln.k, cid |-> ln.cid, v |-> IF ln.k = "pin" THEN (IF Has(ln, "want") THEN ln.want ELSE ln.v) ELSE NONE,
               id |-> IF Has(ln, "op") THEN ln.op ELSE ""]
 SameOp(a, b) == a.k = b.k /\ a.cid = b.cid /\ a.v = b.v /\ a.id = b.id
 
